@@ -51,7 +51,7 @@ def Cases(tier):
     rng.shuffle(ops)
     made = 0
     # operators that apply to few programs go first so that they are exercised
-    ops.sort(key=lambda o: o[0] not in ('no_base', 'functor_bad_arg',
+    ops.sort(key=lambda o: o[0] not in ('no_base', 'no_base_reader', 'functor_bad_arg',
                                         'functor_bad_arg_via_value',
                                         'inconsistent_distinct',
                                         'drop_distinct',
@@ -66,6 +66,8 @@ def Cases(tier):
       query = list(base['query'])
       if name in ('functor_bad_arg', 'functor_bad_arg_via_value'):
         query.append('Mbad')
+      if name == 'no_base_reader':
+        query.append('Qnb')
       cases.append({'id': '%s_%s' % (base['id'], name), 'prog': v,
                     'query': query, 'syntax': False,
                     'meta': {'features': ['op_' + name],
